@@ -173,7 +173,7 @@ class ModuleImports:
             return stmt.get_old_location()[0]
 
     def _remove_imports(self, imports):
-        lines = self.pymodule.source_code.splitlines(True)
+        lines = _split_lines(self.pymodule.source_code)
         after_removing = []
         first_import_line = self._first_import_line()
         last_index = 0
@@ -190,7 +190,7 @@ class ModuleImports:
         return after_removing
 
     def _rewrite_imports(self, imports):
-        lines = self.pymodule.source_code.splitlines(True)
+        lines = _split_lines(self.pymodule.source_code)
         after_rewriting = []
         last_index = 0
         for stmt in imports:
@@ -387,6 +387,19 @@ def get_first_decorator_or_function_start_line(node):
     decorators = getattr(node, "decorator_list", [])
     first_line = min([decorator.lineno for decorator in decorators] + [node.lineno])
     return first_line
+
+
+def _split_lines(source):
+    """Like ``str.splitlines(True)``, but only at ``\\n``
+
+    Import statements are located by the line numbers of the parser, which
+    does not end a line at a form feed or a unicode line separator.
+    """
+    lines = source.split("\n")
+    result = [line + "\n" for line in lines[:-1]]
+    if lines[-1]:
+        result.append(lines[-1])
+    return result
 
 
 def _count_blank_lines(get_line, start, end, step=1):
